@@ -10,6 +10,7 @@ dir="/verif/seeded/$id"
 props="$*"
 if [ -z "$props" ]; then props="$(python3 -c "import json;print(' '.join(json.load(open('$dir/meta.json')).get('check_with',[])))" 2>/dev/null)"; fi
 [ -n "$props" ] || props="C01 C02 C03 C04 C05 C06 C07 C08 C09 C10 C11 C12 C13 C14 C15 C16 C17 C18 C19"
+exec 8>/var/tmp/lzsim-repo.lock; flock -x 8; export VERIF_NO_REPO_LOCK=1
 git -C /repo apply "$dir/patch.diff" || { echo "patch does not apply"; exit 2; }
 # evidence/ and replays/ describe the unchanged tree: keep them out of a seed trial's way
 bak="$(mktemp -d /var/tmp/seedtrial.XXXXXX)"
